@@ -310,7 +310,15 @@ fn server_disconnect(name: String, params: Value) -> Scenario {
         sys.base_connect.request_problem_information = [None, Some(true), Some(false)][chz.choose(3)];
         sys.bring_up(if chz.choose(2) == 1 { vec![Prop::str(P_REASON_STRING, "welcome"), Prop::user("srv", "1")] } else { vec![] });
         let reason = DISCONNECT_REASONS[chz.choose(DISCONNECT_REASONS.len())];
-        let (props, form) = disconnect_props(chz.choose(4));
+        // (kinds 4 .. 10: a lone Reason String that makes the property section 125 .. 129, 16 382 and
+        // 16 383 bytes long - where the Property Length and the Remaining Length change their widths)
+        let kind = chz.choose(11);
+        let (props, form) = if kind < 4 {
+            disconnect_props(kind)
+        } else {
+            let pl = [125usize, 126, 127, 128, 129, 16382, 16383][kind - 4];
+            (vec![Prop::str(P_REASON_STRING, &"r".repeat(pl - 3))], 2)
+        };
         if form == 0 && reason != 0 {
             // remaining length 0 means reason 0
             sys.finish();
